@@ -26,6 +26,7 @@ TRUSTED = ['Coq 8.16.1 kernel (coqc; coqchk in the thorough tier)',
            'numpy: BLAS dot, np.exp, out= aliasing rules (modelled; observed through the tie)',
            'parametricity: the theorem instance (any ring / Coquelicot C) and the executed instance (group ring) are the same Gallina term']
 ASSUMPTIONS = ['alpha, shift rational (every float is); phases multiples of 1/L with L <= 96 in generated cases',
+               'inverse / Parseval theorems: scalars are Coquelicot complex numbers, sqrt is any function with sq(q)^2 = q for q >= 0',
                'Gaussian-integer input data; comparison tolerance 1e-9*(1+max|model|)']
 RULE = ('random dft2/idft2/round-trip cases: shapes 1..7 (odd, even, 1, non-square), alpha_r, alpha_c = p/q independent, '
         'shifts k/4 or k/2, offsets in [-6,6], both flags, out in {None, complex buffer, f itself, float buffer, wrong shape}; '
@@ -143,7 +144,9 @@ def encode(c):
     if c['op'] == 'idft2':
         return ([2, L] + enc_f(c['f']) + C.enc_q(Fraction(c['ar'])) + C.enc_q(Fraction(c['ac'])) + [c['M'], c['N']]
                 + C.enc_q(Fraction(c['shr'])) + C.enc_q(Fraction(c['shc'])) + [1 if c['unitary'] else 0])
-    return None      # round trips are decided by the oracle (and by the two ops above)
+    if c['op'] == 'roundtrip':
+        return [3, L] + enc_f(c['f']) + [1 if c['unitary'] else 0]
+    return None
 
 
 def decode(c, ints):
@@ -154,6 +157,8 @@ def decode(c, ints):
         return {'err': C.ERRNAMES[rd.z()]}
     a = rd.arr()
     scale = math.sqrt(abs(float(Fraction(c['ar']) * Fraction(c['ac'])))) if c['unitary'] else 1.0
+    if c['op'] == 'roundtrip':       # the unitary factor is applied twice (forward and inverse)
+        scale = abs(float(Fraction(c['ar']) * Fraction(c['ac']))) if c['unitary'] else 1.0
     return {'arr': [[C.kval(v, L) * scale for v in row] for row in a]}
 
 
@@ -196,7 +201,8 @@ def run_impl(c):
         if c['op'] == 'roundtrip':
             F = lentil.fourier.dft2(f, alpha, unitary=c['unitary'])
             g = lentil.fourier.idft2(F, alpha, unitary=c['unitary'])
-            return {'arr': np.asarray(g).tolist(), 'fwd': np.asarray(F).tolist()}
+            h = lentil.fourier.idft2(f, alpha, unitary=c['unitary'])
+            return {'arr': np.asarray(g).tolist(), 'fwd': np.asarray(F).tolist(), 'inv': np.asarray(h).tolist()}
     except Exception as e:
         return {'err': type(e).__name__}
 
@@ -287,5 +293,8 @@ def oracle(c, impl):
             e_out = float(np.sum(np.abs(np.asarray(impl['fwd'], dtype=complex)) ** 2))
             if abs(e_in - e_out) > 1e-9 * (1 + e_in):
                 return f'unitary transform over one period does not conserve energy: {e_in} -> {e_out}'
+            e_inv = float(np.sum(np.abs(np.asarray(impl['inv'], dtype=complex)) ** 2))
+            if abs(e_in - e_inv) > 1e-9 * (1 + e_in):
+                return f'unitary inverse transform over one period does not conserve energy: {e_in} -> {e_inv}'
         return None
     return None
